@@ -2,6 +2,8 @@
 from __future__ import annotations
 
 import collections
+import copy
+import pickle
 import math
 
 from vlib import env  # noqa: F401
@@ -32,7 +34,8 @@ def cases(draw, tier):
                 constraint=draw(st.sampled_from(["default", None])), bias=draw(st.booleans()), seed=draw(st.integers(0, 10**6)),
                 batch=draw(st.sampled_from([None, 1])), container=draw(st.sampled_from(["padded", "padded", "shared-instance", "module-list"])),
                 lr_spell=draw(st.sampled_from(["keyword", "keyword", "positional", "tensor", "tensor-positional"])),
-                params_spell=draw(st.sampled_from(["weight-list", "weight-list", "model.parameters()"])))
+                params_spell=draw(st.sampled_from(["weight-list", "weight-list", "model.parameters()"])),
+                model_history=draw(st.sampled_from([None, None, None, "clone-layers", "copy-model", "pickle-model"])))
 
 
 def run(c) -> CaseResult:
@@ -55,6 +58,12 @@ def run(c) -> CaseResult:
         else:
             shape = (fi,) if c["batch"] is None else (1, fi)
         x = (torch.randint(0, 2, shape, generator=g).to(torch.float64) * 2 - 1)
+        hist = c.get("model_history")
+        if hist:
+            # the way models are assembled in practice: layers are copies of a prototype, and the assembled model is itself copied /
+            # serialised before it is trained (the depth recorded by the container must survive all of it)
+            layer = copy.deepcopy(layer)
+            res.labels.append("history=" + hist)
         model = layer
         if c["depth"] is not None:
             # the layer sits first in a depth container padded with layers whose parameters get no gradient
@@ -63,12 +72,17 @@ def run(c) -> CaseResult:
                 model = uu.DepthSequential(*[layer] * c["depth"])   # a weight-shared layer applied depth times
             else:
                 pads = [uu.Linear(1, 1, dtype=torch.float64) for _ in range(c["depth"] - 1)]
+                if hist and pads:
+                    pads = [copy.deepcopy(pads[0]) for _ in pads]
                 if kind_c == "padded" and c["seed"] % 2:
                     model = uu.DepthSequential(collections.OrderedDict([("first", layer)] + [(f"pad{i_}", p_) for i_, p_ in enumerate(pads)]))
                     kind_c = "padded(OrderedDict)"
                 else:
                     model = uu.DepthSequential(layer, *pads) if kind_c == "padded" else uu.DepthModuleList(iter([layer] + pads))
             res.labels.append(f"container={kind_c}")
+        if hist in ("copy-model", "pickle-model"):
+            model = copy.deepcopy(model) if hist == "copy-model" else pickle.loads(pickle.dumps(model))
+            layer = model if c["depth"] is None else model[0]
         params = [p for p in layer.parameters()]
         if c["bias"]:
             params = [layer.weight]   # train the weight only: the statement is about the weight update
